@@ -31,6 +31,8 @@ func (s threadSafeDuplex[T]) Add(values ...T) {
 }
 
 func (s threadSafeDuplex[T]) AndNot(other Provider[T]) {
+	other = snapshotOperand(other)
+
 	s.lock.Lock()
 	defer s.lock.Unlock()
 
@@ -45,6 +47,8 @@ func (s threadSafeDuplex[T]) Remove(value T) {
 }
 
 func (s threadSafeDuplex[T]) Xor(other Provider[T]) {
+	other = snapshotOperand(other)
+
 	s.lock.Lock()
 	defer s.lock.Unlock()
 
@@ -52,6 +56,8 @@ func (s threadSafeDuplex[T]) Xor(other Provider[T]) {
 }
 
 func (s threadSafeDuplex[T]) And(other Provider[T]) {
+	other = snapshotOperand(other)
+
 	s.lock.Lock()
 	defer s.lock.Unlock()
 
@@ -59,6 +65,8 @@ func (s threadSafeDuplex[T]) And(other Provider[T]) {
 }
 
 func (s threadSafeDuplex[T]) Or(other Provider[T]) {
+	other = snapshotOperand(other)
+
 	s.lock.Lock()
 	defer s.lock.Unlock()
 
@@ -134,6 +142,8 @@ func (s threadSafeSimplex[T]) Add(values ...T) {
 }
 
 func (s threadSafeSimplex[T]) Or(other Provider[T]) {
+	other = snapshotOperand(other)
+
 	s.lock.Lock()
 	defer s.lock.Unlock()
 
@@ -152,4 +162,27 @@ func (s threadSafeSimplex[T]) Clone() Simplex[T] {
 	defer s.lock.Unlock()
 
 	return ThreadSafeSimplex(s.provider.Clone())
+}
+
+// snapshotOperand returns a private copy of other when other is itself one of the thread-safe wrappers of this
+// file; any other provider is returned as it is. The copy is taken under the operand's lock, which is released
+// before the caller takes its own: a binary operation never waits for a second wrapper lock while it holds one,
+// so x.Or(x) returns and a.Or(b) running beside b.Or(a) cannot deadlock.
+func snapshotOperand[T uint32 | uint64](other Provider[T]) Provider[T] {
+	switch typedOther := other.(type) {
+	case threadSafeDuplex[T]:
+		typedOther.lock.Lock()
+		defer typedOther.lock.Unlock()
+
+		return typedOther.provider.Clone()
+
+	case threadSafeSimplex[T]:
+		typedOther.lock.Lock()
+		defer typedOther.lock.Unlock()
+
+		return typedOther.provider.Clone()
+
+	default:
+		return other
+	}
 }
